@@ -27,6 +27,13 @@ Definition mode_ok (want : option (option N)) (have : N) : bool :=
   | None => false
   end.
 
+(* no mode requested: an existing regular destination keeps the permission bits it had *)
+Definition keep_mode_ok (wb : world) (dest : path) (m : modespec) (have : N) : bool :=
+  match m with
+  | MNone => match stat wb dest with Some (NFile _ m0) => N.eqb have (mask_perm m0) | _ => true end
+  | _ => true
+  end.
+
 Definition file_mode_ok (ms : option string) (have : N) : bool :=
   match ms with
   | None => true
@@ -44,13 +51,15 @@ Definition declared_b (t : task) (wb wa : world) : bool :=
       let srcp := match cp_input p with ISrc sp => Some sp | _ => None end in
       match want, stat wa (cp_dest p) with
       | Some c, Some (NFile c' m') =>
-          andb (String.eqb c c') (mode_ok (want_mode wb srcp (cp_mode p)) (mask_perm m'))
+          andb (andb (String.eqb c c') (mode_ok (want_mode wb srcp (cp_mode p)) (mask_perm m')))
+               (keep_mode_ok wb (cp_dest p) (cp_mode p) (mask_perm m'))
       | _, _ => false
       end
   | TTemplate p rendered =>
       match rendered, stat wa (tp_dest p) with
       | Some c, Some (NFile c' m') =>
-          andb (String.eqb c c') (mode_ok (want_mode wb (Some (tp_src p)) (tp_mode p)) (mask_perm m'))
+          andb (andb (String.eqb c c') (mode_ok (want_mode wb (Some (tp_src p)) (tp_mode p)) (mask_perm m')))
+               (keep_mode_ok wb (tp_dest p) (tp_mode p) (mask_perm m'))
       | _, _ => false
       end
   | TFile p =>
